@@ -180,6 +180,8 @@ class Tr:
                 return '(ECall "argmin_abs_diff" [%s; %s])' % (self.expr(d.left), self.expr(d.right))
             if dotted(f) in ('np.vstack', 'numpy.vstack') and len(e.args) == 1 and not e.keywords:
                 return '(ECall "np.vstack" [%s])' % self.expr(e.args[0])
+            if dotted(f) in ('np.power', 'numpy.power') and len(e.args) == 2 and not e.keywords:
+                return '(ECall "np.power" [%s; %s])' % (self.expr(e.args[0]), self.expr(e.args[1]))    # a float function: an oracle of the tie
             if dotted(f) == 'math.log' and len(e.args) == 2 and not e.keywords:
                 return '(ECall "math.log" [%s; %s])' % (self.expr(e.args[0]), self.expr(e.args[1]))    # a float function: an oracle of the tie
             if dotted(f) in ('np.exp', 'np.log', 'np.mean') and len(e.args) == 1 and not e.keywords:
@@ -435,7 +437,7 @@ def literal_dicts(path):
 
 
 FDIV = {'g_LZW', 'g_LC', 'g_CWF'}
-QDIV = {'g_sigma', 'g_deltaForm', 'g_delta', 'g_kappa', 'g_Fplus', 'g_Fminus', 'g_FCR', 'g_NCPR'}
+QDIV = {'g_SCD', 'g_sigma', 'g_deltaForm', 'g_delta', 'g_kappa', 'g_Fplus', 'g_Fminus', 'g_FCR', 'g_NCPR'}
 
 FUNCS = [
     # (Coq name, file, class, function, prefixes under which the data module's names are visible there)
@@ -461,6 +463,7 @@ FUNCS = [
     ('g_Omega_seq', 'localcider/backend/sequence.py', 'Sequence', 'Omega_seq', []),
     ('g_parseSeqFile', 'localcider/backend/seqfileparser.py', 'SequenceFileParser', 'parseSeqFile', []),
     ('g_init_core', 'localcider/backend/sequence.py', 'Sequence', '__init__', [], ('upto', 'self.dmax = dmax')),
+    ('g_SCD', 'localcider/backend/sequence.py', 'Sequence', 'sequence_charge_decoration', []),
     ('g_countPos', 'localcider/backend/sequence.py', 'Sequence', 'countPos', []),
     ('g_countNeg', 'localcider/backend/sequence.py', 'Sequence', 'countNeg', []),
     ('g_countNeut', 'localcider/backend/sequence.py', 'Sequence', 'countNeut', []),
